@@ -200,8 +200,10 @@ impl RK23 {
             }
 
             // Check for last step adjustment
+            let mut last = false;
             if (x + h - xend) * posneg > 0.0 {
                 h = xend - x;
+                last = true;
             }
 
             // Stage 2
@@ -248,7 +250,8 @@ impl RK23 {
                 ye.copy_from_slice(&y);
                 y.copy_from_slice(&yt);
                 xold = x;
-                x += h;
+                // the last step lands exactly on xend (x + (xend - x) can round one ulp past it)
+                x = if last { xend } else { x + h };
 
                 // Prepare dense output
                 if self.dense_output && solout.is_some() {
